@@ -1655,14 +1655,15 @@ def report(run, failures, function_key="function", max_new=8):
     summary = []
     known_hits = {}
     for cls in sorted(by_cls):
-        fl = sorted(by_cls[cls], key=lambda f: (len(dj(f["input"])), dj(f["input"])))
+        keyed = sorted(((dj(f["input"]), i) for i, f in enumerate(by_cls[cls])), key=lambda t: (len(t[0]), t[0], t[1]))   # JSON computed once per failure
+        fl = [by_cls[cls][i] for _, i in keyed]
         unknown = []
         nk = 0
-        for f in fl:
-            k = run.match_known(function=f["function"], input=dj(f["input"]))
+        for f, (fj, _) in zip(fl, keyed):
+            k = run.match_known(function=f["function"], input=fj)
             if k is not None:
                 nk += 1
-                h = known_hits.setdefault(k["what"], [k, 0, dj(f["input"])])
+                h = known_hits.setdefault(k["what"], [k, 0, fj])
                 h[1] += 1
             else:
                 unknown.append(f)
